@@ -201,6 +201,10 @@ func anchorErr(s string) (error, string) {
 		return errors.New("fehler: größe \x00 \xff übersteigt"), "fehler: größe \x00 \xff übersteigt"
 	case "rerror":
 		return p9p.MessageRerror{Ename: "permission denied"}, "permission denied"
+	case "wrapped":
+		// an error that wraps a 9p error: the caller must see the text of the error S returned, not of what it wraps
+		e := fmt.Errorf("open /a/b: %w", p9p.MessageRerror{Ename: "file not found"})
+		return e, e.Error()
 	}
 	return nil, ""
 }
@@ -264,6 +268,32 @@ func stackSequential(vecPath string, res *hx.Result) {
 	ctx := context.Background()
 	s := rig.s
 	distinct := map[string]bool{}
+	// a call whose message cannot be sent at all (it does not fit msize and cannot be shortened) fails by itself:
+	// S is not called, and the calls that follow are served as before
+	{
+		big := strings.Repeat("n", 5000)
+		names := make([]string, 16)
+		for i := range names {
+			names[i] = big
+		}
+		_, werr := rig.sess.Walk(ctx, 1, 2, names...)
+		err2 := rig.sess.WStat(ctx, 1, p9p.Dir{Name: strings.Repeat("d", 80000)})
+		s.mu.Lock()
+		ncalls := len(s.calls)
+		s.calls = nil
+		s.mu.Unlock()
+		s.dir = p9p.Dir{Name: "after-oversized"}
+		d, serr := rig.sess.Stat(ctx, 7)
+		if werr == nil || err2 == nil || ncalls != 0 {
+			res.Violate("C09", "oversized-call", fmt.Sprintf("a walk of 16 x 5000-byte names / a wstat with an 80000-byte name cannot be sent within msize 65536: errors %v / %v, S saw %d calls", werr, err2, ncalls), map[string]interface{}{"engine": "stack", "oversized": true})
+		} else if serr != nil || d.Name != "after-oversized" {
+			res.Violate("C09", "call-after-oversized-call", fmt.Sprintf("after a call that could not be sent (message larger than msize) the next call returns %q, %v instead of what S returns", d.Name, serr), map[string]interface{}{"engine": "stack", "oversized": true})
+		}
+		s.mu.Lock()
+		s.calls = nil
+		s.mu.Unlock()
+		res.Evaluations += 3
+	}
 	hx.ReadNDJSON(vecPath, func(b []byte) error {
 		var v cmVector
 		if err := json.Unmarshal(b, &v); err != nil {
